@@ -20,6 +20,8 @@
 #include <vp/interpose.hpp>
 #include <vp/xplore.hpp>
 
+#include <covfie/core/backend/transformer/affine.hpp>
+#include <covfie/core/backend/transformer/clamp.hpp>
 #include <covfie/core/backend/transformer/linear.hpp>
 #include <covfie/core/backend/transformer/nearest_neighbour.hpp>
 
@@ -115,16 +117,20 @@ extern "C" __attribute__((no_sanitize_coverage)) void __sanitizer_cov_trace_pc()
 }
 #endif
 
-enum Interp { DIRECT, NN, LINEAR };
-static const char * IN[] = {"direct", "nn", "linear"};
+enum Interp { DIRECT, NN, LINEAR, CLAMPED, AFFINE_NN };
+static const char * IN[] = {"direct", "nn", "linear", "clamp", "affine_nn"};
 
 template <class L, size_t N, int I>
 struct Cfg {
     using In = cv::vector_d<std::size_t, N>;
     using Ar = probe_array<cv::float1>;
     using St = typename L::template apply<In, Ar>;
-    using B = std::conditional_t<I == DIRECT, St, std::conditional_t<I == NN, cb::nearest_neighbour<St, cv::vector_d<float, N>>, cb::linear<St, cv::vector_d<float, N>>>>;
-    using coord_scalar = std::conditional_t<I == DIRECT, std::size_t, float>;
+    using NNt = cb::nearest_neighbour<St, cv::vector_d<float, N>>;
+    using B = std::conditional_t<I == DIRECT, St,
+              std::conditional_t<I == NN, NNt,
+              std::conditional_t<I == LINEAR, cb::linear<St, cv::vector_d<float, N>>,
+              std::conditional_t<I == CLAMPED, cb::clamp<St>, cb::affine<NNt>>>>>;
+    using coord_scalar = std::conditional_t<(I == DIRECT || I == CLAMPED), std::size_t, float>;
     using coord_t = covfie::array::array<coord_scalar, N>;
     static constexpr size_t EXT = 8;
     static std::string name()
@@ -138,6 +144,18 @@ struct Cfg {
         covfie::field<St> st(covfie::make_parameter_pack(typename St::configuration_t(to_cov<size_t, N>(ext)), typename Ar::configuration_t{L::template doc_len<N>(ext)}));
         if constexpr (I == DIRECT) {
             return st;
+        } else if constexpr (I == CLAMPED) {
+            typename B::configuration_t cc;
+            for (size_t k = 0; k < N; ++k) {
+                cc.min[k] = 0;
+                cc.max[k] = EXT - 1;
+            }
+            typename B::owning_data_t o(cc, typename St::owning_data_t(st.backend()));
+            return covfie::field<B>(covfie::make_parameter_pack(std::move(o)));
+        } else if constexpr (I == AFFINE_NN) {
+            typename NNt::owning_data_t inner(std::monostate{}, typename St::owning_data_t(st.backend()));
+            typename B::owning_data_t o(typename B::configuration_t(covfie::algebra::affine<N, float>::identity()), std::move(inner));
+            return covfie::field<B>(covfie::make_parameter_pack(std::move(o)));
         } else {
             typename B::owning_data_t o(std::monostate{}, typename St::owning_data_t(st.backend()));
             return covfie::field<B>(covfie::make_parameter_pack(std::move(o)));
@@ -146,6 +164,7 @@ struct Cfg {
     static typename St::non_owning_data_t storage_view(const covfie::field<B> & f)
     {
         if constexpr (I == DIRECT) return typename St::non_owning_data_t(f.backend());
+        else if constexpr (I == AFFINE_NN) return typename St::non_owning_data_t(f.backend().get_backend().get_backend());
         else return typename St::non_owning_data_t(f.backend().get_backend());
     }
     static void reset(const covfie::field<B> & f)
@@ -171,7 +190,7 @@ struct Cfg {
     {
         coord_t c;
         for (size_t a = 0; a < N; ++a) {
-            float v = static_cast<float>((k + a) % 2) + (I == LINEAR ? 0.25f * static_cast<float>(1 + (k + a) % 3) : (I == NN ? 0.25f : 0.f));
+            float v = static_cast<float>((k + a) % 2) + (I == LINEAR ? 0.25f * static_cast<float>(1 + (k + a) % 3) : ((I == NN || I == AFFINE_NN) ? 0.25f : 0.f));
             c[a] = static_cast<coord_scalar>(v);
         }
         return c;
@@ -379,6 +398,7 @@ static void programs_for(Report & R, int bound, uint64_t max_sched, bool thoroug
     }
 }
 
+static bool g_fn_thorough = true;
 template <class C>
 static void programs_fn(Report & R, int bound, uint64_t max_sched)
 {
@@ -387,9 +407,11 @@ static void programs_fn(Report & R, int bound, uint64_t max_sched)
     Program one_vs_twice = {{{false, 0, 0}}, {{false, 1, 0}, {false, 1, 0}}};
     Program two_one = {{{false, 0, 0}}, {{false, 1, 0}}};
     explore_config<C>(R, "prime_then_same", prime_then_same, true, bound, max_sched);
-    explore_config<C>(R, "one_vs_twice", one_vs_twice, true, bound, max_sched);
     explore_config<C>(R, "2x1lookup", two_one, true, bound, max_sched);
-    explore_config<C>(R, "prime_then_same", prime_then_same, false, bound, max_sched);
+    if (g_fn_thorough) {
+        explore_config<C>(R, "one_vs_twice", one_vs_twice, true, bound, max_sched);
+        explore_config<C>(R, "prime_then_same", prime_then_same, false, bound, max_sched);
+    }
 }
 template <class L, size_t N>
 static void all_interps_fn(Report & R, int bound, uint64_t max_sched)
@@ -397,6 +419,8 @@ static void all_interps_fn(Report & R, int bound, uint64_t max_sched)
     programs_fn<Cfg<L, N, DIRECT>>(R, bound, max_sched);
     programs_fn<Cfg<L, N, NN>>(R, bound, max_sched);
     programs_fn<Cfg<L, N, LINEAR>>(R, bound, max_sched);
+    programs_fn<Cfg<L, N, CLAMPED>>(R, bound, max_sched);
+    programs_fn<Cfg<L, N, AFFINE_NN>>(R, bound, max_sched);
 }
 
 template <class L, size_t N>
@@ -405,6 +429,14 @@ static void all_interps(Report & R, int bound, uint64_t max_sched, bool thorough
     programs_for<Cfg<L, N, DIRECT>>(R, bound, max_sched, thorough);
     programs_for<Cfg<L, N, NN>>(R, bound, max_sched, thorough);
     programs_for<Cfg<L, N, LINEAR>>(R, bound, max_sched, thorough);
+    programs_for<Cfg<L, N, CLAMPED>>(R, bound, max_sched, thorough);
+    programs_for<Cfg<L, N, AFFINE_NN>>(R, bound, max_sched, thorough);
+    if constexpr (N == 3 && std::is_same_v<L, L_strided>) {
+        // the generic (N >= 4) path of the interpolator: two 4-D lookups have 2 x 17 scheduling points, explored with the bound
+        Program two_one = {{{false, 0, 0}}, {{false, 1, 0}}};
+        explore_config<Cfg<L, 4, LINEAR>>(R, "2x1lookup", two_one, true, bound < 0 ? 2 : bound, max_sched);
+        explore_config<Cfg<L, 4, LINEAR>>(R, "2x1lookup", two_one, false, bound < 0 ? 2 : bound, max_sched);
+    }
 }
 
 
@@ -681,6 +713,9 @@ static void free_interps(Report & R, int T)
     free_run<Cfg<L, N, DIRECT>>(R, T);
     free_run<Cfg<L, N, NN>>(R, T);
     free_run<Cfg<L, N, LINEAR>>(R, T);
+    free_run<Cfg<L, N, CLAMPED>>(R, T);
+    free_run<Cfg<L, N, AFFINE_NN>>(R, T);
+    if constexpr (N == 3 && std::is_same_v<L, L_strided>) free_run<Cfg<L, 4, LINEAR>>(R, T);
 }
 
 int main(int argc, char ** argv)
@@ -737,6 +772,7 @@ int main(int argc, char ** argv)
     } else if (mode == "explore_fn") {
         int bound = argc > 2 ? std::atoi(argv[2]) : 2;
         uint64_t max_sched = argc > 3 ? std::strtoull(argv[3], nullptr, 10) : 200000;
+        g_fn_thorough = argc > 4 && std::string(argv[4]) == "thorough";
         if (argc > 5) g_filter = argv[5];
         if constexpr (std::is_same_v<VP_LAYER, L_hilbert>) {
             all_interps_fn<VP_LAYER, 2>(R, bound, max_sched);
